@@ -334,6 +334,27 @@ theorem lstripSlash_cons (p : Str) : lstripSlash ('/' :: lstripSlash p) = lstrip
   rw [hc] at this
   simpa using this
 
+theorem getCurrentUrl_eq_opt (o : UrlOpaque) (scheme host root path : Str) (q : Bytes) :
+    getCurrentUrl o scheme host root path q = getCurrentUrlOpt o scheme host (some root) (some path) q := by
+  simp [getCurrentUrl, getCurrentUrlOpt, List.append_assoc]
+
+/-- `werkzeug.wsgi.get_current_url(environ)` is `Request(environ).url`: the environ-level function
+applies the same dances, and the normalisation `Request` applies to SCRIPT_NAME / PATH_INFO
+(`rstrip("/")`, `"/" + lstrip("/")`) is absorbed by `get_current_url`'s own stripping. -/
+theorem wsgiCurrentUrl_eq_request_url (o : UrlOpaque) (e : Environ) :
+    wsgiCurrentUrl o e false false false = (requestView o e).map (fun r => r.url) := by
+  unfold wsgiCurrentUrl requestView
+  cases decodingDance e.scriptName <;> cases decodingDance e.pathInfo <;>
+    cases Py.latin1Enc e.queryString <;> try rfl
+  rename_i root p q
+  simp only [Bool.false_eq_true, if_false, Bool.or_self, getCurrentUrl_eq_opt]
+  have h : getCurrentUrlOpt o e.urlScheme (getHost e.urlScheme e.httpHost) (some (rstripSlash root))
+      (some ('/' :: lstripSlash p)) q
+      = getCurrentUrlOpt o e.urlScheme (getHost e.urlScheme e.httpHost) (some root) (some p) q := by
+    simp only [getCurrentUrlOpt, rstripSlash_idem, lstripSlash_cons]
+  rw [h]
+  cases getCurrentUrlOpt o e.urlScheme (getHost e.urlScheme e.httpHost) (some root) (some p) q <;> rfl
+
 /-- **What the request reports as its URL denotes its root path, path and query.** For an environ
 whose SCRIPT_NAME / PATH_INFO / QUERY_STRING are the latin-1 dances of `root`, `p`, `qs`, whose
 host is a URI-form netloc without userinfo that `get_host` leaves alone: `Request.url` is
